@@ -1189,7 +1189,9 @@ impl World {
             Msg::ResultMsg(i, n) => Message::Result(ApiMessage { msg_index: *i, data: rnd_bytes(rng, *n) }).serialize(),
             Msg::ErrorMsg(i, n) => Message::Error(ApiMessage { msg_index: *i, data: rnd_bytes(rng, *n) }).serialize(),
             Msg::KeyList(n) => {
-                let keys: Vec<SaitoPublicKey> = (0..*n).map(|i| keypair(((i % 200) + 10) as u8).0).collect();
+                // different keys in every message, so that "was this list applied?" can be read off the entry
+                let salt = (rng.next() % 150) as usize;
+                let keys: Vec<SaitoPublicKey> = (0..*n).map(|i| keypair((((i + salt) % 200) + 10) as u8).0).collect();
                 Message::KeyListUpdate(keys).serialize()
             }
             Msg::Undecodable(k) => match k {
@@ -1645,6 +1647,14 @@ impl Runner {
         let cur_challenge = self.w.att.get(&conn).map(|a| a.challenge.is_some()).unwrap_or(false);
         let before = self.w.n.verification.processed_msgs.total;
         let sent_before: u64 = self.w.to_attacker.values().sum();
+        let keylist_before: Option<Vec<SaitoPublicKey>> = {
+            let peers = self.w.n.peers.read().await;
+            peers.index_to_peers.get(&conn).map(|p| p.key_list.clone())
+        };
+        let keylist_sent: Option<Vec<SaitoPublicKey>> = match Message::deserialize(buf.clone()) {
+            Ok(Message::KeyListUpdate(l)) => Some(l),
+            _ => None,
+        };
         // the verified bit is only known after the call: run, then patch the recorded term
         // does the buffer decode at all? asked of the real decoder (e.g. since fix eeb4ec7 a golden ticket
         // transaction with a payload of the wrong size is undecodable)
@@ -1675,7 +1685,13 @@ impl Runner {
                 broken.push(format!("message {} of the current second was processed (quota 100000)", mc));
             }
             if matches!(m, Msg::KeyList(_)) && kc > 100 {
-                broken.push(format!("key list {} of the current minute was accepted (quota 100)", kc));
+                let after: Option<Vec<SaitoPublicKey>> = {
+                    let peers = self.w.n.peers.read().await;
+                    peers.index_to_peers.get(&conn).map(|p| p.key_list.clone())
+                };
+                if after == keylist_sent && after != keylist_before {
+                    broken.push(format!("key list {} of the current minute was applied (quota 100)", kc));
+                }
             }
             if matches!(m, Msg::Challenge | Msg::Response(_)) && hc > 100 && sent_now > sent_before {
                 broken.push(format!("handshake message {} of the current minute was answered (quota 100)", hc));
